@@ -581,6 +581,11 @@ def build_unit(ws, unit_name):
             elif d.startswith("final"):
                 m = re.match(r'final\s+(\d+)\s+"([^"]*)"', d)
                 pending["finals"][int(m.group(1))] = m.group(2)
+            elif d.startswith("tailbind"):
+                # `tailbind name`: the body's trailing expression E becomes `let name = E; <following text>; name`
+                pending["tailbind"] = d.split()[1]
+                pending["tailbind_text"] = []
+                pending["cur"] = pending["tailbind_text"]
             elif d.startswith("tail"):
                 # text placed in front of the body's trailing expression (after the last top-level statement)
                 pending["tail"] = []
@@ -717,7 +722,7 @@ def build_unit(ws, unit_name):
                     body = body[:b_idx] + "\n" + "\n".join(p["loops"][k]) + "\n" + body[b_idx:]
             for ent in p["after"]:
                 body = splice_stmt(body, ent["stmt"], "\n".join(ent["text"]), ent["before"])
-            if p.get("tail"):
+            if p.get("tail") or p.get("tailbind"):
                 depth, bi, last = 0, 0, 0
                 while bi < len(body):
                     sk = _skip_noncode(body, bi)
@@ -734,7 +739,15 @@ def build_unit(ws, unit_name):
                     elif ch == ";" and depth == 0:
                         last = bi + 1
                     bi += 1
-                body = body[:last] + "\n" + "\n".join(p["tail"]) + "\n" + body[last:]
+                if p.get("tailbind"):
+                    expr = body[last:].strip()
+                    if not expr:
+                        raise ExtractError("lost anchor: `%s` has no trailing expression" % p["anchor"])
+                    body = (body[:last] + "\n" + "\n".join(p.get("tail") or []) + "\nlet %s = %s;\n" % (p["tailbind"], expr)
+                            + "\n".join(p["tailbind_text"]) + "\n" + p["tailbind"] + "\n")
+                    applied.append({"kind": "tailbind", "from": "<trailing expression E>", "to": "let %s = E; ...; %s" % (p["tailbind"], p["tailbind"]), "count": 1})
+                else:
+                    body = body[:last] + "\n" + "\n".join(p["tail"]) + "\n" + body[last:]
             if p["track"] is not None:
                 body = autotrack(body, p["track"], p["finals"])
             out.append(ln.replace("/*@@body*/", body))
@@ -777,7 +790,7 @@ def classify(stderr):
     return failed, undecided
 
 
-def run_unit(scr, unit, tier):
+def _run_unit_once(scr, unit, tier, extra_flags=(), rlimit_mult=1):
     t0 = time.time()
     name = unit["unit"]
     res = {"unit": name, "functions": [], "verified": 0, "errors": 0, "status": "ok", "reason": "",
@@ -798,8 +811,8 @@ def run_unit(scr, unit, tier):
         if re.search(r"external_body|assume_specification|\bassume\(|\badmit\(|verifier::truncate|verifier::external|exec_allows_no_decreases_clause", ln) \
                 and not ln.strip().startswith("//"):
             res["trusted"].append("verus unit %s line %d: %s" % (name, n, ln.strip()[:160]))
-    rlimit = str(unit.get("rlimit", 30 if tier == "quick" else 100))
-    cmd = ["verus", path, "--output-json", "--time", "--rlimit", rlimit, "--multiple-errors", "4"] + unit.get("flags", [])
+    rlimit = str(unit.get("rlimit", 30 if tier == "quick" else 100) * rlimit_mult)
+    cmd = ["verus", path, "--output-json", "--time", "--rlimit", rlimit, "--multiple-errors", "4"] + unit.get("flags", []) + list(extra_flags)
     env = dict(os.environ)
     p = subprocess.run(cmd, cwd=vdir, stdout=subprocess.PIPE, stderr=subprocess.PIPE, text=True, env=env,
                        timeout=unit.get("timeout", 1200))
@@ -860,6 +873,41 @@ def run_unit(scr, unit, tier):
     # canary: the template must contain a function named *_canary_must_fail? handled by separate unit flag
     res["wall_s"] = round(time.time() - t0, 2)
     return res
+
+
+def run_unit(scr, unit, tier):
+    """Run the unit; an obligation is reported as failed only if it fails in every one of up to three attempts
+    (second and third attempt: other SMT random seeds, three times the resource limit). A proof that goes through
+    in one attempt is a proof; the unstable attempts are recorded in the result."""
+    r = _run_unit_once(scr, unit, tier)
+    if r["status"] != "failed":
+        return r
+    first = r
+    persistent = {f["function"] for f in r["failed_obligations"]}
+    attempts = [sorted(persistent)]
+    for seed in (17, 4242):
+        r2 = _run_unit_once(scr, unit, tier, extra_flags=["--smt-option", "smt.random_seed=%d" % seed, "--smt-option", "sat.random_seed=%d" % seed], rlimit_mult=3)
+        if r2["status"] == "ok":
+            r2["unstable_attempts"] = attempts
+            r2["wall_s"] = round(first["wall_s"] + r2["wall_s"], 2)
+            return r2
+        if r2["status"] == "failed":
+            now = {f["function"] for f in r2["failed_obligations"]}
+            attempts.append(sorted(now))
+            persistent &= now
+            if not persistent:
+                # different obligations fail in different attempts: nothing fails reproducibly -> undecided, not a violation
+                r2["status"] = "undecided"
+                r2["reason"] = "unstable proof: no obligation fails in every attempt (%s)" % attempts
+                r2["failed_obligations"] = []
+                r2["unstable_attempts"] = attempts
+                return r2
+            first = r2
+        else:
+            attempts.append(["<undecided: %s>" % r2.get("reason", "")[:80]])
+    first["failed_obligations"] = [f for f in first["failed_obligations"] if f["function"] in persistent]
+    first["unstable_attempts"] = attempts
+    return first
 
 
 def handle_failure(scr, unit, r, prop):
